@@ -288,7 +288,11 @@ func c18objects(seed int64, keys *gen.KeyRing, n int) []*c18object {
 				{"Key.PublicKey", func() string { p, err := ck.PublicKey(); return fmt.Sprintf("%v %v", p, err) }},
 				{"Key.PrivateKey", func() string { _, err := ck.PrivateKey(); return resErr(err) }},
 				{"Key.AlgorithmOrDefault", func() string { a, err := ck.AlgorithmOrDefault(); return fmt.Sprint(a, err) }},
-				{"Key.accessors", func() string { c, x, y, d := ck.EC2(); c2, x2, d2 := ck.OKP(); return fmt.Sprintf("%v %x %x %x %v %x %x", c, x, y, d, c2, x2, d2) }},
+				{"Key.accessors", func() string {
+					c, x, y, d := ck.EC2()
+					c2, x2, d2 := ck.OKP()
+					return fmt.Sprintf("%v %x %x %x %v %x %x", c, x, y, d, c2, x2, d2)
+				}},
 			}
 			out = append(out, o)
 		default: // stand-alone Signature
@@ -335,6 +339,7 @@ func runC18(c *Ctx) {
 	nObj := c.N(252, 1260)
 	objs := c18objects(c.Seed, c.Keys, nObj)
 	rec.Extra("shared_objects", len(objs))
+	rec.MaxSamples = 12
 
 	// ---------- sequential half: snapshots around every read-path call ----------
 	for _, o := range objs {
@@ -448,7 +453,19 @@ func runC18(c *Ctx) {
 	rec.Require("concurrent-ops-overlapped", 1000)
 	rec.Require("shared-signer-signatures", 200)
 	rec.RequireClasses(100)
-	rec.Sample("shared-object", map[string]any{"kind": "sign1", "ops": "Verify, MarshalCBOR, Untagged.Verify, Headers.MarshalProtected, ... by 32 goroutines"})
+	seenKind := map[string]bool{}
+	for _, o := range objs {
+		key := fmt.Sprintf("%s/decoded=%v", o.kind, o.dec)
+		if seenKind[key] {
+			continue
+		}
+		seenKind[key] = true
+		var ops []string
+		for _, op := range o.ops {
+			ops = append(ops, op.name+" -> "+clip(op.run()))
+		}
+		rec.Sample("shared-object/"+key, map[string]any{"object": o.name, "alg": o.alg, "operations_and_sequential_results": ops})
+	}
 }
 
 var frameRe = regexp.MustCompile(`(?m)^  (\S+)\(\)\s*$`)
